@@ -123,15 +123,21 @@ def gen_world(rs: int, P: dict) -> dict:
     if rvar < P.get("long_chain", 0.02) and P["net"] == "custom":
         # many sessions one after the other on one or two stations (a station's 10th, 20th, ... occupant)
         P = dict(P, stations=(1, 2), horizon=(40, 90), sessions_cap=40, chain_fill=(0.97, 1.0), b2b=0.85, hot=0.05, max_stay=4)
+    if P.get("long_chain", 0.02) <= rvar < P.get("long_chain", 0.02) + P.get("wide", 0.02) and P["net"] == "custom":
+        # a wide site: dozens of stations (size-keyed code paths), short horizon
+        P = dict(P, stations=(17, 70), horizon=(4, 10), sessions_cap=90, chain_fill=(0.2, 0.5))
     r = sub(rs, "shape")
     n_st = r.randint(*P["stations"])
-    names = STATION_NAMES[:n_st]
+    if P["stations"][1] >= 65 and sub(rs, "over64").random() < 0.35:
+        n_st = sub(rs, "over64n").randint(65, 72)      # above the 64-station mark
+    names_pool = STATION_NAMES if n_st <= len(STATION_NAMES) else ["S%03d" % i_ for i_ in range(n_st)]
+    names = names_pool[:n_st]
     nm_ = r.random()
     if nm_ < 0.3:
         names = ["CA-%d" % (300 + 7 * i) for i in range(n_st)]
     elif nm_ < 0.4:
         # unusual but valid ids: numeric-looking strings, ids that are prefixes of each other, separators, spaces, non-ASCII, long
-        names = ["1", "01", "10", "A", "AA", "A-1", "A/1", "a b", "\u00c4", "x" * 30, "0", "-1"][:n_st]
+        names = (["1", "01", "10", "A", "AA", "A-1", "A/1", "a b", "\u00c4", "x" * 30, "0", "-1"] + ["n%d" % i_ for i_ in range(n_st)])[:n_st]
     party_kind = wchoice(r, P["party"])
     sorted_party = party_kind in ("greedy", "rr")
     stations = []
@@ -178,7 +184,7 @@ def gen_world(rs: int, P: dict) -> dict:
     cons = []
     if ckind != "none":
         rc = sub(rs, "constraints")
-        n_c = rc.randint(1, min(6, n_st + 2))
+        n_c = rc.randint(1, min(6 if n_st <= 16 else 70, n_st + 2))
         for j in range(n_c):
             k = rc.randint(1, n_st)
             members = rc.sample([s["id"] for s in stations], k)
@@ -205,7 +211,7 @@ def gen_world(rs: int, P: dict) -> dict:
         if rc.random() < 0.1:
             # unusual but valid constraint names: glob / regex metacharacters, spaces, numeric-looking, prefixes of each other
             pool = ["I[a]", "Sec*", "c?", "a b", "1", "01", "c", "cc", "A.B", "(x)", "c1|c2", "^p$"]
-            for c_, nm_ in zip(cons, rc.sample(pool, len(cons))):
+            for c_, nm_ in zip(cons, rc.sample(pool, min(len(pool), len(cons)))):
                 c_["name"] = nm_
     tol = sub(rs, "tol")
     net = {
@@ -239,6 +245,11 @@ def gen_world(rs: int, P: dict) -> dict:
         sim["verbose"] = True          # rarely used public option (progress output goes to a sink)
     if ropt.random() < 0.06:
         sim["iface_sub"] = True        # interface_type: a user subclass of Interface that adds nothing
+    if ropt.random() < 0.05 and P["net"] == "custom":
+        sim["deepcopy_before_run"] = True   # the simulator that runs is a copy.deepcopy of the one that was built
+    if ropt.random() < 0.08:
+        sim["np_scalars"] = True       # arrivals / departures / energies / period handed over as numpy scalars
+        net["np_scalars"] = True       # ... and the network's tolerances / flags too
 
     ra = sub(rs, "aware_start")
     if P.get("aware_start", 0) and ra.random() < P["aware_start"]:
